@@ -117,8 +117,16 @@ def _compute_headers(cols, col_indices):
 	dtypes = []
 	seen = set()
 
-	for idx in col_indices:
+	shown = set(col_indices)
+	for idx in range(len(cols)):
 		col = cols[idx]
+		if idx not in shown:
+			# hidden by the "..." column, but it still claims its accessor name
+			if col._name:
+				hidden = _sanitize_user_name(col._name)
+				if hidden is not None:
+					seen.add(hidden)
+			continue
 
 		# Display name
 		disp = col._name or ""
